@@ -27,7 +27,8 @@ RULE = (
     "case = generated kernel source: 1-3 kernels, each with 1-3 //vectorize_over ... //end_vectorize blocks (both "
     "surface forms, distinct loop variables), /*gpukern*/, /*gpufun*/ helper functions, /*gpuglmem*/ and /*restrict*/ "
     "placeholders, lines restricted with //only_for_context <subset of targets> inside and outside blocks, "
-    "//include_file <f> for_context <subset> with generated files, unique unannotated filler lines; x n in {0,1,2,3, "
+    "//include_file <f> for_context <subset> with generated files (which may carry a context-restricted line of their own), "
+    "optionally annotated text handed over through extra_headers=, unique unannotated filler lines; x n in {0,1,2,3, "
     "block-1, block, block+1, 2*block+3} x CUDA block size in {1,2,32,256}. Block bodies are index-local and "
     "instrumented: cnt[i] += 1; y[i] = 2*x[i] + K (+ terms that are active only when a context-restricted line / an "
     "included file is active for the target), on arrays with canary slots behind n. Oracle: on ContextCpu() and "
